@@ -4,6 +4,7 @@ import (
 	"encoding/json"
 	"errors"
 	"fmt"
+	"strconv"
 	"strings"
 
 	exsrv "github.com/cybergarage/go-redis/examples/go-redisd/server"
@@ -58,6 +59,19 @@ func handlerResult(kind, text string) (*redis.Message, error) {
 		return outer, nil
 	case "nil-nil":
 		return nil, nil
+	}
+	if n, ok := strings.CutPrefix(kind, "deep"); ok {
+		// a reply nested n arrays deep around one bulk string
+		depth, _ := strconv.Atoi(n)
+		m := redis.NewBulkMessage(text)
+		for i := 0; i < depth; i++ {
+			outer := redis.NewArrayMessage()
+			outer.Append(m)
+			m = outer
+		}
+		return m, nil
+	}
+	switch kind {
 	case "nil-err":
 		return nil, errors.New(text)
 	case "msg-err":
@@ -153,9 +167,10 @@ func c04Check(cs c04Case) (clause, detail string) {
 		return "extra-frames", fmt.Sprintf("%d requests but %d reply frames (a reply was split or a frame forged): %s", want, len(vals), trunc(out.Reply, 160))
 	}
 	if len(vals) < want {
-		// fewer replies are acceptable only if the server closed the connection instead
-		if out.Closes == 0 {
-			return "missing-frames", fmt.Sprintf("%d requests, %d reply frames and the connection was not closed", want, len(vals))
+		// fewer replies are acceptable only if the server closed the connection instead -
+		// that is, before the client's end of stream was reported to it
+		if out.Closes == 0 || out.EndSeenAtClose {
+			return "missing-frames", fmt.Sprintf("%d requests, %d reply frames and the server did not close the connection instead (it was open until the client's end of stream): %s", want, len(vals), trunc(out.Reply, 120))
 		}
 		if out.ClosedAt != len(out.Reply) {
 			return "write-after-close", "bytes written after close"
@@ -245,6 +260,12 @@ func c04Run(c *fw.Ctx) {
 			for _, tx := range texts {
 				run(c04Case{Kind: "handler", Input: concat(grammar.Encode(tr), ping), NReq: 2, Result: k, Text: tx, Method: tr[0]}, tr[0]+"|handler-"+k)
 			}
+		}
+	}
+	// (b'') replies nested as deep as the parser's own limit and beyond
+	for _, tr := range triggers[:8] {
+		for _, depth := range []int{3, 64, 127, 128, 129, 130, 255, 256, 257, 1000, 5000} {
+			run(c04Case{Kind: "handler", Input: concat(grammar.Encode(tr), ping, grammar.Encode(tr), ping), NReq: 4, Result: fmt.Sprintf("deep%d", depth), Text: "v", Method: tr[0]}, tr[0]+"|handler-deep")
 		}
 	}
 	// (b') replies the application keeps and returns again, or has read before returning them
